@@ -5,6 +5,7 @@ import (
 	"encoding/json"
 	"fmt"
 	"strconv"
+	"strings"
 	"sync/atomic"
 	"verif/internal/drv"
 
@@ -238,6 +239,135 @@ func c08Check(c *vf.Ctx, cs *c08Case, file []byte, pf *gen.ProgFile, workBufs []
 	return ranges
 }
 
+// c08Op is one call of a history on a lazily decoded file that shares ONE reader between all calls.
+type c08Op struct {
+	Kind  string `json:"kind"` // read, copy (MdatBox.ReadData / CopyData), samples (File.CopySampleData), seek (the caller moves the reader)
+	Mdat  int    `json:"mdat,omitempty"`
+	Start int    `json:"start,omitempty"` // absolute file offset; for seek: the position
+	Size  int    `json:"size,omitempty"`
+	Track int    `json:"track,omitempty"`
+	A     int    `json:"a,omitempty"`
+	B     int    `json:"b,omitempty"`
+	Work  int    `json:"work,omitempty"`
+}
+
+// c08Ops lists the operation alphabet of a file: every range of every mdat payload through ReadData and CopyData,
+// every sample interval through CopySampleData (work buffers nil and 2), and the caller moving the reader itself.
+func c08Ops(file []byte, pf *gen.ProgFile) []c08Op {
+	fm, err := mp4.DecodeFile(bytes.NewReader(file))
+	if err != nil {
+		vf.Harness("c08: %v", err)
+	}
+	var ops []c08Op
+	for k, m := range c08Mdats(fm) {
+		s0, pl := int(m.PayloadAbsoluteOffset()), int(m.Size()-m.HeaderSize())
+		for s := 0; s < pl; s++ {
+			for sz := 1; s+sz <= pl; sz++ {
+				ops = append(ops, c08Op{Kind: "read", Mdat: k, Start: s0 + s, Size: sz}, c08Op{Kind: "copy", Mdat: k, Start: s0 + s, Size: sz})
+			}
+		}
+	}
+	if pf != nil {
+		for ti := range pf.Samples {
+			n := len(pf.Samples[ti])
+			for a := 1; a <= n; a++ {
+				for b := a; b <= n; b++ {
+					ops = append(ops, c08Op{Kind: "samples", Track: ti, A: a, B: b}, c08Op{Kind: "samples", Track: ti, A: a, B: b, Work: 2})
+				}
+			}
+		}
+	}
+	ops = append(ops, c08Op{Kind: "seek", Start: 0}, c08Op{Kind: "seek", Start: len(file)})
+	return ops
+}
+
+// c08History runs one sequence of operations in both modes (lazy: one shared reader) and checks every result
+// against the file bytes. Returns false after reporting a difference.
+func c08History(c *vf.Ctx, cs *c08Case, file []byte, pf *gen.ProgFile, seq []c08Op) bool {
+	fm, err1 := mp4.DecodeFile(bytes.NewReader(file))
+	rs := bytes.NewReader(file)
+	fl, err2 := mp4.DecodeFile(rs, mp4.WithDecodeMode(mp4.DecModeLazyMdat))
+	if err1 != nil || err2 != nil {
+		vf.Harness("c08 history: %v %v", err1, err2)
+	}
+	mm, ml := c08Mdats(fm), c08Mdats(fl)
+	ok := true
+	for i, op := range seq {
+		var gm, gl, want []byte
+		var em, el error
+		guard(c, "history", "a call sequence does not panic", func() interface{} { return map[string]interface{}{"case": cs, "history": seq[:i+1]} }, func() {
+			switch op.Kind {
+			case "seek":
+				_, _ = rs.Seek(int64(op.Start), 0)
+			case "read":
+				want = file[op.Start : op.Start+op.Size]
+				gm, em = mm[op.Mdat].ReadData(int64(op.Start), int64(op.Size), nil)
+				gl, el = ml[op.Mdat].ReadData(int64(op.Start), int64(op.Size), rs)
+			case "copy":
+				want = file[op.Start : op.Start+op.Size]
+				var wm, wl bytes.Buffer
+				_, em = mm[op.Mdat].CopyData(int64(op.Start), int64(op.Size), nil, &wm)
+				_, el = ml[op.Mdat].CopyData(int64(op.Start), int64(op.Size), rs, &wl)
+				gm, gl = wm.Bytes(), wl.Bytes()
+			case "samples":
+				for k := op.A; k <= op.B; k++ {
+					want = append(want, pf.Data[op.Track][k-1]...)
+				}
+				var ws []byte
+				if op.Work > 0 {
+					ws = make([]byte, op.Work)
+				}
+				var wm, wl bytes.Buffer
+				em = fm.CopySampleData(&wm, nil, fm.Moov.Traks[op.Track], uint32(op.A), uint32(op.B), ws)
+				el = fl.CopySampleData(&wl, rs, fl.Moov.Traks[op.Track], uint32(op.A), uint32(op.B), ws)
+				gm, gl = wm.Bytes(), wl.Bytes()
+			}
+		})
+		if op.Kind == "seek" {
+			continue
+		}
+		if em != nil || el != nil || !bytes.Equal(gm, want) || !bytes.Equal(gl, want) {
+			c.Fail("call history: "+op.Kind+" after "+seqKinds(seq[:i]), "reads and copies return the file bytes in both modes whatever was called before on the same reader", map[string]interface{}{"case": cs, "history": seq[:i+1], "mem_err": fmt.Sprint(em), "lazy_err": fmt.Sprint(el), "mem": vf.Hex(gm), "lazy": vf.Hex(gl), "want": vf.Hex(want)})
+			ok = false
+			break
+		}
+	}
+	return ok
+}
+
+func seqKinds(seq []c08Op) string {
+	if len(seq) == 0 {
+		return "nothing"
+	}
+	var k []string
+	for _, o := range seq {
+		k = append(k, o.Kind)
+	}
+	return strings.Join(k, ",")
+}
+
+// c08Histories enumerates all operation sequences of the given depth over the file's alphabet.
+func c08Histories(c *vf.Ctx, cs *c08Case, file []byte, pf *gen.ProgFile, depth int) (n int64) {
+	ops := c08Ops(file, pf)
+	seq := make([]c08Op, depth)
+	var rec func(d int) bool
+	rec = func(d int) bool {
+		if d == depth {
+			n++
+			return c08History(c, cs, file, pf, seq)
+		}
+		for _, o := range ops {
+			seq[d] = o
+			if !rec(d + 1) {
+				return false // one report per file is enough
+			}
+		}
+		return true
+	}
+	rec(0)
+	return n
+}
+
 func c08Specs(maxN int) []*gen.ProgSpec {
 	var specs []*gen.ProgSpec
 	for n := 1; n <= maxN; n++ {
@@ -281,7 +411,7 @@ func runC08(c *vf.Ctx) {
 		maxN = 9
 		c.SetBudget(8 * 60 * 1e9)
 	}
-	c.Rule = "generated progressive files: all chunkings (compositions) of N samples x {mdat before/after moov} x {32-bit, 64-bit mdat header} x {1,2 tracks, interleaved chunks} x lead-in 0/1 x trailing box {none, empty mdat (8/16-byte header), free}, sample sizes 1..3; fragmented files with 1-2 fragments; for each file BOTH decode modes, then every (start,size>=1) range inside every mdat payload through ReadData and CopyData, every sample interval 1<=a<=b<=N through CopySampleData with work buffers {0,1,2,3,5,8,payload,payload+1}, Info/Size/positions of both trees, lazy mdat Encode/EncodeSW; plus the segmenter example in default vs -lazy mode on every file of the C11 generator at every segment duration (identical output files). A case = one file (distinct by construction); 'ranges' counts the individual range/interval comparisons."
+	c.Rule = "generated progressive files: all chunkings (compositions) of N samples x {mdat before/after moov} x {32-bit, 64-bit mdat header} x {1,2 tracks, interleaved chunks} x lead-in 0/1 x trailing box {none, empty mdat (8/16-byte header), free}, sample sizes 1..3; fragmented files with 1-2 fragments; for each file BOTH decode modes, then every (start,size>=1) range inside every mdat payload through ReadData and CopyData, every sample interval 1<=a<=b<=N through CopySampleData with work buffers {0,1,2,3,5,8,payload,payload+1}, Info/Size/positions of both trees, lazy mdat Encode/EncodeSW; call histories on ONE shared reader (every sequence of 2 calls over the alphabet {ReadData, CopyData of every range of every mdat, CopySampleData of every interval with work buffer nil/2, caller seeks to 0/end} for payloads <= 9 (thorough: 13) bytes and for the fragmented files, every sequence of 3 for payloads <= 3 (5) bytes, each call compared with the file bytes); plus the segmenter example in default vs -lazy mode on every file of the C11 generator at every segment duration (identical output files). A case = one file (distinct by construction); 'ranges' counts the individual range/interval comparisons."
 	c.Bound = fmt.Sprintf("N <= %d samples per video track", maxN)
 	specs := c08Specs(maxN)
 	var frags []*c08FragSpec
@@ -289,6 +419,12 @@ func runC08(c *vf.Ctx) {
 		frags = append(frags, &c08FragSpec{Sizes: [][]int{{a}}}, &c08FragSpec{Sizes: [][]int{{a, 2}, {3}}}, &c08FragSpec{Sizes: [][]int{{1}, {a, 1, 2}}})
 	}
 	total := len(specs) + len(frags)
+	histP2, histP3 := 9, 3
+	if c.Tier == "thorough" {
+		histP2, histP3 = 13, 5
+	}
+	var hist atomic.Int64
+	defer func() { c.Set("call_histories_on_one_shared_reader", hist.Load()) }()
 	c.Parallel(total, func(i int) {
 		var r int64
 		if i < len(specs) {
@@ -302,9 +438,23 @@ func runC08(c *vf.Ctx) {
 				b := append(append([]byte{}, pf.Bytes...), c08Tail(tail)...)
 				r += c08Check(c, &c08Case{Kind: "prog", Spec: sp, Tail: tail}, b, pf, wbs)
 			}
+			// call histories on ONE shared reader: all sequences of 2 calls for payloads <= histP2 bytes, of 3 for <= histP3
+			if pf.PayloadLen <= histP3 {
+				h := c08Histories(c, &c08Case{Kind: "prog", Spec: sp}, pf.Bytes, pf, 3)
+				r += h
+				hist.Add(h)
+			} else if pf.PayloadLen <= histP2 {
+				h := c08Histories(c, &c08Case{Kind: "prog", Spec: sp}, pf.Bytes, pf, 2)
+				r += h
+				hist.Add(h)
+			}
 		} else {
 			fs := frags[i-len(specs)]
-			r = c08Check(c, &c08Case{Kind: "frag", Frag: fs}, c08BuildFrag(fs), nil, nil)
+			fb := c08BuildFrag(fs)
+			r = c08Check(c, &c08Case{Kind: "frag", Frag: fs}, fb, nil, nil)
+			h := c08Histories(c, &c08Case{Kind: "frag", Frag: fs}, fb, nil, 2)
+			r += h
+			hist.Add(h)
 		}
 		c.Evals.Add(1)
 		c.DistinctN.Add(1)
@@ -372,10 +522,23 @@ func runC08(c *vf.Ctx) {
 
 func replayC08(c *vf.Ctx, detail json.RawMessage) {
 	var d struct {
-		Case c08Case `json:"case"`
+		Case    c08Case `json:"case"`
+		History []c08Op `json:"history"`
 	}
 	if err := json.Unmarshal(detail, &d); err != nil {
 		vf.Harness("bad detail: %v", err)
+	}
+	if len(d.History) > 0 {
+		if d.Case.Kind == "prog" {
+			pf, err := gen.BuildProg(d.Case.Spec)
+			if err != nil {
+				vf.Harness("gen: %v", err)
+			}
+			c08History(c, &d.Case, pf.Bytes, pf, d.History)
+		} else {
+			c08History(c, &d.Case, c08BuildFrag(d.Case.Frag), nil, d.History)
+		}
+		return
 	}
 	if d.Case.Kind == "segmenter" {
 		runC08(c) // the segmenter comparison is cheap: re-run the check
